@@ -100,13 +100,9 @@ structure T46GuardMin (c : Cfg) : Prop where
   root : ∀ x ts, Frame.taskLoop x ts ∈ c.stack → (step c).st.rootOf x = c.st.rootOf x
   own : ∀ r t k w, c.stack = .ptOwn r t :: k → c.exn = none → c.ret.yield = .sub w →
     t.parent = none ∧ t.e < c.st.evs.length
-  doneTask : ∀ r h e k w, c.stack = .invoke r h e :: k → c.exn = none → (c.st.handler h).kind = .waitDone w →
-    (c.st.wait w).flag = true →
-      (⟨(c.st.wait w).taskEvent, (c.st.wait w).task, some (c.st.wait w).parentGen⟩ : Task) ∈
-        (c.st.comp (c.st.rootOf (c.st.wait w).owner)).tasks
 
 theorem T46Guard.of_min {n0 : Nat} {c : Cfg} (hm : T46GuardMin c) (hw : W6CInv n0 c) (hq : T46RQ c) : T46Guard c :=
-  T46Guard.of_core ⟨hm.tick, hm.root, fun r e rest err g k hs _ => hq.gen r e rest err (.gen g) k hs, hm.own, hm.doneTask⟩ hw
+  T46Guard.of_core ⟨hm.tick, hm.root, fun r e rest err g k hs _ => hq.gen r e rest err (.gen g) k hs, hm.own⟩ hw
 
 /-- admissible sessions (`W6ReachW`) on which the minimal guard holds at every step taken -/
 inductive T46ReachM (s0 : St) : Cfg → Prop
